@@ -95,7 +95,59 @@ def request_policy_for(sc: S.Scenario, extra: dict[str, Any] | None = None) -> d
     return p
 
 
-def config_dict(sc: S.Scenario, schema_name: str, files: dict[str, str | None], rp_extra: dict[str, Any] | None = None, ksk_policy_extra: dict[str, Any] | None = None) -> dict[str, Any]:
+def shared_section_options() -> dict[str, list[str]]:
+    """Option names that occur in TWO OR MORE sections of the ksrsigner configuration, read off the pydantic models of the
+    tree under test: name -> sections (top-level fields of KSKMConfig whose type is a model, a mapping of models, or a model
+    nesting another one — `ksk_policy.signature_policy` is written flat in the file).  On the pinned tree:
+    num_bundles and validate_signatures, each in request_policy and response_policy.  An entry point that reads such an
+    option from the wrong section behaves correctly as long as the sections agree; the streams that use this set the
+    sections to DIFFERENT values."""
+    import typing
+
+    import pydantic
+    from kskm.common.config import KSKMConfig
+
+    def model_of(ann: Any) -> Any:
+        """The model a section is made of: the annotation itself, or the value type of a mapping / NewType of one."""
+        ann = getattr(ann, "__supertype__", ann)
+        if isinstance(ann, type) and issubclass(ann, pydantic.BaseModel):
+            return ann
+        for a in typing.get_args(ann):
+            m = model_of(a)
+            if m is not None:
+                return m
+        return None
+
+    def options(model: Any, depth: int = 0) -> set[str]:
+        out: set[str] = set()
+        for name, f in model.model_fields.items():
+            ann = getattr(f.annotation, "__supertype__", f.annotation)
+            if depth < 2 and isinstance(ann, type) and issubclass(ann, pydantic.BaseModel):
+                out |= options(ann, depth + 1)  # a nested model written flat in the section
+            else:
+                out.add(name)
+        return out
+
+    where: dict[str, list[str]] = {}
+    for section, f in KSKMConfig.model_fields.items():
+        m = model_of(f.annotation)
+        if m is None:
+            continue
+        for o in sorted(options(m)):
+            where.setdefault(o, []).append("keys" if section == "ksk_keys" else section)
+    return {o: secs for o, secs in sorted(where.items()) if len(secs) >= 2}
+
+
+def differing_values(honest: Any) -> list[Any]:
+    """Other legal values for an option, by its declared type: the other truth value; the neighbouring integers (>= 1)."""
+    if isinstance(honest, bool):
+        return [not honest]
+    if isinstance(honest, int):
+        return [v for v in (honest + 1, honest - 1) if v >= 1]
+    return []
+
+
+def config_dict(sc: S.Scenario, schema_name: str, files: dict[str, str | None], rp_extra: dict[str, Any] | None = None, ksk_policy_extra: dict[str, Any] | None = None, response_policy_extra: dict[str, Any] | None = None) -> dict[str, Any]:
     hsm = {f"hsm{i}": {"module": m["path"], "pin": m.get("pin", "1234")} for i, m in enumerate(sc.modules)}
     # the schema as LISTED in the configuration (possibly not in ascending slot order; the slot number decides)
     listed = sc.schema_listed() if hasattr(sc, "schema_listed") else sc.schema
@@ -105,7 +157,7 @@ def config_dict(sc: S.Scenario, schema_name: str, files: dict[str, str | None], 
         "schemas": {schema_name: {int(s): dict(a) for s, a in listed.items()}},
         "ksk_policy": dict({"ttl": sc.ksk_ttl, "publish_safety": "P10D", "retire_safety": "P10D", "max_signature_validity": "P21D", "min_signature_validity": "P21D", "max_validity_overlap": "P12D", "min_validity_overlap": "P9D"}, **(ksk_policy_extra or {})),
         "request_policy": request_policy_for(sc, rp_extra),
-        "response_policy": {"num_bundles": len(sc.layout)},
+        "response_policy": dict({"num_bundles": len(sc.layout)}, **(response_policy_extra or {})),
         "filenames": {k: v for k, v in files.items() if v is not None},
     }
     return d
@@ -141,6 +193,7 @@ def run_ceremony(
     files_via: str = "config",
     file_faults: dict[str, str] | None = None,
     cfg_ksr_xml: str | None = None,
+    response_policy_extra: dict[str, Any] | None = None,
 ) -> dict[str, Any]:
     """One ceremony on the real entry point. Returns observations + the model input line.
 
@@ -155,7 +208,10 @@ def run_ceremony(
     over does not lead to a usable file (the intended content, when there is one, lies beside it).  The model is then
     told the outcome of reading the name the documented precedence picks (command line before configuration), read by
     the harness itself.  obs["fault_effective"] is False when the process can use the file all the same (uid 0 and
-    permission bits)."""
+    permission bits).
+    rp_extra / response_policy_extra / ksk_policy_extra: options written over the `request_policy:` / `response_policy:` /
+    `ksk_policy:` sections (e.g. the same-named options of two sections set to DIFFERENT values, see
+    shared_section_options())."""
     from kskm.common.config import KSKMConfig
     from kskm.ksr.load import request_from_xml
     from kskm.skr.load import response_from_xml
@@ -215,7 +271,7 @@ def run_ceremony(
     # the output path the run is ASKED to write (command line before configuration) and the one it must not touch
     asked_out = Path(names["out_cli"] or names["out_cfg"] or out_path)
     other_out = Path(names["out_cfg"]) if (names["out_cli"] and names["out_cfg"]) else None
-    cfgd = config_dict(sc, "s", {"input_ksr": names["ksr_cfg"], "previous_skr": names["prev_cfg"], "output_skr": names["out_cfg"]}, rp_extra, ksk_policy_extra)
+    cfgd = config_dict(sc, "s", {"input_ksr": names["ksr_cfg"], "previous_skr": names["prev_cfg"], "output_skr": names["out_cfg"]}, rp_extra, ksk_policy_extra, response_policy_extra)
     if cfg_mutator:
         cfgd = cfg_mutator(cfgd)
     # (a YAML mapping is ordered: keep the schema's listing order; non-ASCII text is written as such, UTF-8, as an operator's editor does)
